@@ -54,3 +54,14 @@ Theorem C06_system_window_discipline : forall (A : Type) cmax W ls (s : pst A),
   Forall (fun f => (flen f <= cmax)%nat) (p_sent s).
 Proof. exact system_window_discipline. Qed.
 Print Assumptions C06_system_window_discipline.
+
+(* nested tunnels: both levels keep their window discipline under every interleaving *)
+From GT Require Import Nested NestedProofs.
+Theorem C06_nested_window_discipline : forall (A B : Type) (enc : dframe A -> list B) (dec : list B -> option (dframe A)),
+  (forall f, dec (enc f) = Some f) ->
+  forall cmaxI WI cmaxO WO ls (n : nst A B), nrun enc dec cmaxI cmaxO (n_init A B WI WO) ls = Some n ->
+  p_overrun (n_in n) = false /\ (bytes (p_rq (n_in n)) <= WI)%nat /\
+  (p_swin (n_in n) + bytes (n_fl n) + bytes (p_rq (n_in n)) + PipeProofs.sum (p_credits (n_in n)) = WI)%nat /\
+  p_overrun (n_out n) = false /\ (bytes (p_rq (n_out n)) <= WO)%nat.
+Proof. exact nested_window_discipline. Qed.
+Print Assumptions C06_nested_window_discipline.
